@@ -38,6 +38,8 @@ def kf_src(name, cond):
 MUTATIONS: list = []
 # set when an order_rows-style sort (not a window sort) met rows tied on all sort keys: their relative order is then not defined
 ORDER_SORT_TIES = [False]
+# helpers whose result does not depend on how ties are broken (C21 rank_to_average) switch the total-order requirement off
+ALLOW_WINDOW_TIES = [False]
 
 
 # --------------------------------------------------------------------------------------------------------------- vectors
@@ -860,7 +862,7 @@ class GroupBy:
         for g in self.groups:
             for k, i in enumerate(g):
                 out[i] = Cell(FALSE, z3.IntVal(k), "i")
-        if getattr(self.df, "_ties", False) or getattr(self.df, "_nullkey", False):
+        if (getattr(self.df, "_ties", False) or getattr(self.df, "_nullkey", False)) and not ALLOW_WINDOW_TIES[0]:
             raise OutsideClaim("window order is not total (tie or null order key)")
         return Series(out, self.df.index)
 
@@ -901,7 +903,7 @@ class SeriesGroupBy:
 
     def transform(self, op, *args):
         col = self.gb.df._cols[self.col]
-        if op in _ORDERED_OPS and (getattr(self.gb.df, "_ties", False) or getattr(self.gb.df, "_nullkey", False)):
+        if op in _ORDERED_OPS and (getattr(self.gb.df, "_ties", False) or getattr(self.gb.df, "_nullkey", False)) and not ALLOW_WINDOW_TIES[0]:
             raise OutsideClaim("window order is not total (tie or null order key)")
         out = [None] * self.gb.df._n
         for g in self.gb.groups:
@@ -1268,7 +1270,7 @@ class DataFrame:
                 flags["ties"] = True
                 if not window_sort:
                     ORDER_SORT_TIES[0] = True
-                if window_sort:
+                if window_sort and not ALLOW_WINDOW_TIES[0]:
                     # a tie on partition + order columns: the window order is not total (outside C01/C18/C27); stop exploring orders
                     raise OutsideClaim("window order is not total (tie)")
             return r0
@@ -1550,7 +1552,11 @@ class _ApiTypes:
     @staticmethod
     def is_numeric_dtype(x):
         if isinstance(x, _Vec):
-            return x.kind in ("i", "f", "b")
+            k = x.kind
+            if k == "b":
+                # a boolean column holding a missing value is an object column in pandas (not numeric); without one it is bool (numeric)
+                return not any(decide(c.null, (c,)) for c in x.cells if not z3.is_false(c.null))
+            return k in ("i", "f")
         return isinstance(x, (int, float))
 
 
